@@ -9,7 +9,7 @@
 (***************************************************************************)
 EXTENDS PTQueue, TLCExt, Json, IOUtils
 
-Traces == ndJsonDeserialize(IOEnv.TRACE_FILE)
+Traces == TLCEval(ndJsonDeserialize(IOEnv.TRACE_FILE))
 NT == Len(Traces)
 VARIABLES tid, l
 tvars == <<vars, tid, l>>
